@@ -62,11 +62,13 @@ def generate(rng, tier):
 
 def _generate_long(rng, tier):
     name = rng.choice(LONG)
-    q = {"anbn": rng.choice([0.3, 0.6, 0.9]), "pal": rng.choice([0.2, 0.3, 0.45]),
-         "dyck": rng.choice([0.2, 0.35, 0.45]), "rlin": rng.choice([0.3, 0.7, 0.95]),
-         "llin": rng.choice([0.3, 0.7, 0.95]), "catalan": rng.choice([0.2, 0.35, 0.45])}[name]
+    # small q = very small string probabilities (far below the double range
+    # for a few hundred tokens): the rescaled variant must still be exact
+    q = {"anbn": rng.choice([0.001, 0.01, 0.3, 0.6, 0.9]), "pal": rng.choice([0.001, 0.01, 0.2, 0.3, 0.45]),
+         "dyck": rng.choice([0.001, 0.01, 0.2, 0.35, 0.45]), "rlin": rng.choice([0.0001, 0.001, 0.01, 0.3, 0.7, 0.95]),
+         "llin": rng.choice([0.0001, 0.001, 0.01, 0.3, 0.7, 0.95]), "catalan": rng.choice([0.2, 0.35, 0.45])}[name]
     ab = gen.named(name, q)
-    n = rng.choice([60, 110, 200, 300]) if tier == "quick" else rng.choice([110, 200, 300, 400])
+    n = rng.choice([60, 110, 200, 300, 400]) if tier == "quick" else rng.choice([110, 200, 300, 400, 500])
     if name == "catalan":
         n = min(n, 40)
     x = gen.named_long_string(name, rng, n)
@@ -304,19 +306,37 @@ def _execute_long(sc):
         cx = tuple(tmap[a] for a in x)
         inv = {v: k for k, v in tmap.items()}
         out.probe("long_context_tokens", len(x))
+        if want_logw < -709:
+            out.probe("long_below_double_range")
+        if want_logw < -1400:
+            out.probe("long_below_1e-600")
         if "rescaled_logp" in sc["backends"]:
+            from genlm.grammar.cfglm import add_EOS
             from genlm.grammar.parse.earley_rescaled import Earley as REarley
-            ok, got = guarded(out, "rescaled_logp", lambda: REarley(cfg).logp(cx), sig={"name": name})
+            # The rescaled parser rescales by the weight of the complete item of
+            # the start symbol, i.e. it is exact far below the double range on
+            # *prefix* grammars (where every viable prefix completes it) - that
+            # is how the LM uses it.  logp(x + EOS) there is log weight(x).
+            ok, got = guarded(out, "rescaled_logp",
+                              lambda: REarley(add_EOS(cfg).prefix_grammar).logp(cx + (gen.EOS,)), sig={"name": name})
             out.evals += 1
-            if ok and not (abs(float(got) - want_logw) <= 1e-9 * abs(want_logw) + 1e-9):
+            if ok and not (abs(float(got) - want_logw) <= 1e-9 * abs(want_logw) + 1e-8):
                 out.violation("lm:long-logp:rescaled", sig={"name": name}, n=len(x), got=repr(float(got)),
                               want=repr(want_logw), schedule=si)
-            ok, got = guarded(out, "rescaled_call", lambda: REarley(cfg)(cx), sig={"name": name})
-            out.evals += 1
-            wv = math.exp(want_logw)
-            if ok and wv > 1e-290 and not (abs(float(got) - wv) <= 1e-7 * wv):
-                out.violation("lm:long-call:rescaled", sig={"name": name}, n=len(x), got=repr(float(got)),
-                              want=repr(wv), schedule=si)
+            if want_logw > -600:
+                # on the plain grammar no rescaling applies between complete
+                # strings; only claimed inside the double range
+                ok, got = guarded(out, "rescaled_logp_plain", lambda: REarley(cfg).logp(cx), sig={"name": name})
+                out.evals += 1
+                if ok and not (abs(float(got) - want_logw) <= 1e-9 * abs(want_logw) + 1e-8):
+                    out.violation("lm:long-logp-plain:rescaled", sig={"name": name}, n=len(x), got=repr(float(got)),
+                                  want=repr(want_logw), schedule=si)
+                ok, got = guarded(out, "rescaled_call", lambda: REarley(cfg)(cx), sig={"name": name})
+                out.evals += 1
+                wv = math.exp(want_logw)
+                if ok and not (abs(float(got) - wv) <= 1e-7 * wv):
+                    out.violation("lm:long-call:rescaled", sig={"name": name}, n=len(x), got=repr(float(got)),
+                                  want=repr(wv), schedule=si)
         rng = rng_for(sc.get("positions_seed", 0), si)
         for be in sc["backends"]:
             if be not in ("earleylm", "rescaledlm"):
@@ -363,3 +383,19 @@ def _execute_long(sc):
     out.probes.update({f"chaos_{k}": v for k, v in chaos.stats().items()})
     out.sample = {"kind": "long", "name": name, "q": q, "n": len(x), "log_weight": want_logw}
     return out
+
+
+def shrink_candidates(sc):
+    """Long runs: the closed form belongs to the named grammar and the member
+    string, so only the schedule is simplified."""
+    from ..common import shrink_candidates as generic
+
+    if sc.get("kind") == "long":
+        import copy
+
+        for c in generic(dict(sc, grammar=None)):
+            c = copy.deepcopy(c)
+            c["grammar"] = sc["grammar"]
+            yield c
+    else:
+        yield from generic(sc)
